@@ -111,6 +111,8 @@ type Term struct {
 	args []*Term
 	val  uint64 // constant payload / extra parameter
 	name string // variable name
+	km   uint64 // known-bits mask (BV terms)
+	kv   uint64 // known-bits values
 }
 
 func (t *Term) IsConst() bool { return t.op == OpConst }
@@ -145,6 +147,9 @@ func (tt *TermTable) mk(op Op, s Sort, val uint64, name string, args ...*Term) *
 	t := &Term{id: len(tt.terms), op: op, sort: s, val: val, name: name}
 	if len(args) > 0 {
 		t.args = append([]*Term(nil), args...)
+	}
+	if s.K == KBV {
+		t.computeKnown()
 	}
 	tt.tab[k] = t
 	tt.terms = append(tt.terms, t)
@@ -296,6 +301,11 @@ func (tt *TermTable) Eq(a, b *Term) *Term {
 	}
 	if a.IsConst() && b.IsConst() {
 		return tt.Bool(a.val == b.val)
+	}
+	if a.sort.K == KBV {
+		if k := a.km & b.km; (a.kv^b.kv)&k != 0 {
+			return tt.False
+		}
 	}
 	if a.sort.K == KBool {
 		if a.IsConst() {
@@ -458,6 +468,18 @@ func (tt *TermTable) Bin(op Op, a, b *Term) *Term {
 		if a == b {
 			return a
 		}
+		if b.IsConst() {
+			// bits of a already known zero outside b, or (x op c1) & c2 rewrites
+			if zeroKnown := a.km &^ a.kv; (^b.val&mask(w))&^zeroKnown == 0 {
+				return a // every bit cleared by the mask is already known to be zero
+			}
+			if a.op == OpBAnd && a.args[1].IsConst() {
+				return tt.Bin(OpBAnd, a.args[0], tt.Const(w, a.args[1].val&b.val))
+			}
+			if a.op == OpBOr && a.args[1].IsConst() {
+				return tt.Bin(OpBOr, tt.Bin(OpBAnd, a.args[0], b), tt.Const(w, a.args[1].val&b.val))
+			}
+		}
 	case OpBOr, OpBXor:
 		if a.IsConst() {
 			a, b = b, a
@@ -483,7 +505,11 @@ func (tt *TermTable) Bin(op Op, a, b *Term) *Term {
 			return a
 		}
 	}
-	return tt.mk(op, a.sort, 0, "", a, b)
+	r := tt.mk(op, a.sort, 0, "", a, b)
+	if r.km == mask(w) {
+		return tt.Const(w, r.kv)
+	}
+	return r
 }
 
 func (tt *TermTable) Cmp(op Op, a, b *Term) *Term {
@@ -505,6 +531,51 @@ func (tt *TermTable) Cmp(op Op, a, b *Term) *Term {
 	}
 	if a == b {
 		return tt.Bool(op == OpUle || op == OpSle)
+	}
+	if a.sort.K == KBV {
+		alo, ahi := a.urange()
+		blo, bhi := b.urange()
+		switch op {
+		case OpUlt:
+			if ahi < blo {
+				return tt.True
+			}
+			if alo >= bhi {
+				return tt.False
+			}
+		case OpUle:
+			if ahi <= blo {
+				return tt.True
+			}
+			if alo > bhi {
+				return tt.False
+			}
+		case OpSlt, OpSle:
+			// usable when both sign bits are known
+			sb := uint64(1) << uint(w-1)
+			if a.km&sb != 0 && b.km&sb != 0 {
+				an, bn := a.kv&sb != 0, b.kv&sb != 0
+				if an != bn {
+					return tt.Bool(an)
+				}
+				// same sign: unsigned comparison of the ranges decides
+				if op == OpSlt {
+					if ahi < blo {
+						return tt.True
+					}
+					if alo >= bhi {
+						return tt.False
+					}
+				} else {
+					if ahi <= blo {
+						return tt.True
+					}
+					if alo > bhi {
+						return tt.False
+					}
+				}
+			}
+		}
 	}
 	return tt.mk(op, SBool, 0, "", a, b)
 }
@@ -880,3 +951,72 @@ func (tt *TermTable) usesHardArith(t *Term, memo map[int]bool) bool {
 }
 
 var _ = bits.Len64
+
+// computeKnown derives bits whose value is fixed regardless of the variables.
+func (t *Term) computeKnown() {
+	w := t.sort.W
+	m := mask(w)
+	switch t.op {
+	case OpConst:
+		t.km, t.kv = m, t.val
+	case OpBAnd:
+		a, b := t.args[0], t.args[1]
+		zero := (a.km &^ a.kv) | (b.km &^ b.kv)
+		one := (a.km & a.kv) & (b.km & b.kv)
+		t.km, t.kv = (zero|one)&m, one&m
+	case OpBOr:
+		a, b := t.args[0], t.args[1]
+		one := (a.km & a.kv) | (b.km & b.kv)
+		zero := (a.km &^ a.kv) & (b.km &^ b.kv)
+		t.km, t.kv = (zero|one)&m, one&m
+	case OpBXor:
+		a, b := t.args[0], t.args[1]
+		k := a.km & b.km
+		t.km, t.kv = k&m, (a.kv^b.kv)&k&m
+	case OpBNot:
+		a := t.args[0]
+		t.km, t.kv = a.km, (^a.kv)&a.km&m
+	case OpZext:
+		a := t.args[0]
+		hi := m &^ mask(a.sort.W)
+		t.km, t.kv = a.km|hi, a.kv
+	case OpSext:
+		a := t.args[0]
+		aw := a.sort.W
+		hi := m &^ mask(aw)
+		t.km, t.kv = a.km, a.kv
+		if a.km&(1<<uint(aw-1)) != 0 {
+			t.km |= hi
+			if a.kv&(1<<uint(aw-1)) != 0 {
+				t.kv |= hi
+			}
+		}
+	case OpExtract:
+		a := t.args[0]
+		lo := uint(t.val & 0xff)
+		t.km, t.kv = (a.km>>lo)&m, (a.kv>>lo)&m
+	case OpShl:
+		a, b := t.args[0], t.args[1]
+		if b.IsConst() && b.val < uint64(w) {
+			sh := uint(b.val)
+			t.km, t.kv = ((a.km<<sh)|mask(int(sh)))&m, (a.kv<<sh)&m
+		}
+	case OpLShr:
+		a, b := t.args[0], t.args[1]
+		if b.IsConst() && b.val < uint64(w) {
+			sh := uint(b.val)
+			hi := m &^ (m >> sh)
+			t.km, t.kv = ((a.km>>sh)|hi)&m, (a.kv>>sh)&m
+		}
+	case OpIte:
+		a, b := t.args[1], t.args[2]
+		k := a.km & b.km &^ (a.kv ^ b.kv)
+		t.km, t.kv = k&m, a.kv&k&m
+	}
+}
+
+// urange returns unsigned bounds implied by the known bits.
+func (t *Term) urange() (uint64, uint64) {
+	m := mask(t.sort.W)
+	return t.kv & t.km, (t.kv | ^t.km) & m
+}
